@@ -238,6 +238,55 @@ class NS:
         a[0].__dict__.update(kw)
 
 
+class AssocV:
+    """dict of known size whose keys may be symbolic: an association list; keys are
+    pairwise distinct on the current path (every insertion forks on equality)"""
+
+    def __init__(self, items):
+        self.items = list(items)
+
+    def contains(self, ip, x):
+        return b_or(*[ip.eq(x, k) for k, _ in self.items])
+
+    def set_item(self, ip, k, v):
+        for i, (ki, vi) in enumerate(self.items):
+            if ip.branch(ip.eq(k, ki)):
+                self.items[i] = (ki, v)
+                return
+        self.items.append((k, v))
+
+    def get_item(self, ip, k):
+        for ki, vi in self.items:
+            if ip.branch(ip.eq(k, ki)):
+                return vi
+        raise PyRaise(ExcV("KeyError", ()))
+
+    def iterate(self, ip):
+        return [k for k, _ in self.items]
+
+    def length(self, ip):
+        return len(self.items)
+
+    def truthy(self):
+        return len(self.items) > 0
+
+    def get_attr(self, ip, name):
+        if name == "items":
+            return PyFn("items", lambda ip_, a, k: list(self.items))
+        if name == "keys":
+            return PyFn("keys", lambda ip_, a, k: [x for x, _ in self.items])
+        if name == "values":
+            return PyFn("values", lambda ip_, a, k: [y for _, y in self.items])
+        if name == "get":
+            def get(ip_, a, k):
+                for ki, vi in self.items:
+                    if ip_.branch(ip_.eq(a[0], ki)):
+                        return vi
+                return a[1] if len(a) > 1 else None
+            return PyFn("get", get)
+        raise EngineError(f"dict.{name} on a symbolic-key dict")
+
+
 class EnumMember:
     def __init__(self, cls, name, value):
         self.cls = cls
@@ -329,9 +378,19 @@ class ClassV:
                 ann = ast.unparse(st.annotation)
                 if ann.startswith("ClassVar"):
                     if st.value is not None:
-                        self.attrs[st.target.id] = interp.eval(st.value, cenv)
+                        try:
+                            self.attrs[st.target.id] = interp.eval(st.value, cenv)
+                        except EngineError as e:
+                            self.attrs[st.target.id] = ExternalV(f"<unevaluated {self.name}.{st.target.id}: {e}>")
                 elif self.kind in ("namedtuple", "dataclass"):
                     self.fields.append((st.target.id, st.annotation, st.value))
+                    if st.value is not None:
+                        # a field default is also a class attribute (visible to later
+                        # statements of the class body, e.g. as a parameter default)
+                        try:
+                            self.attrs[st.target.id] = interp.eval(st.value, cenv)
+                        except (EngineError, PyRaise):
+                            pass
                 elif st.value is not None:
                     self.attrs[st.target.id] = interp.eval(st.value, cenv)
             elif isinstance(st, ast.Assign):
@@ -627,6 +686,13 @@ class Interp:
             except IndexError:
                 raise PyRaise(ExcV("IndexError", ()))
         elif isinstance(obj, dict):
+            if _has_sym(idx):
+                if not (isinstance(node, ast.Subscript) and isinstance(node.value, ast.Name)):
+                    raise EngineError("symbolic key stored into a dict that is not a local name")
+                a = AssocV(list(obj.items()))
+                self._rebind(env, node.value.id, a)
+                a.set_item(self, idx, v)
+                return
             obj[self.hashable(idx)] = v
         elif isinstance(obj, SeqV):
             if not (isinstance(node, ast.Subscript) and isinstance(node.value, ast.Name)):
@@ -718,7 +784,29 @@ class Interp:
         it = self.eval(st.iter, env)
         if (isinstance(it, (SeqV, SetV)) or (hasattr(it, "lo") and hasattr(it, "hi"))) and self.loop_hook is not None:
             if not (isinstance(it, SeqV) and z3.is_int_value(z3.simplify(it.length))):
-                return self.loop_hook(self, st, env, it)
+                r = self.loop_hook(self, st, env, it)
+                if r is not NotImpl:
+                    return r
+        if hasattr(it, "lo") and hasattr(it, "hi") and not isinstance(it, range):
+            # symbolic range without invariant: unroll while the bound may still hold
+            # (terminates only when the contract bounds the range: finite scope)
+            k = 0
+            while True:
+                cur = ops.add(it.lo, k)
+                if not self.branch(ops.cmp_num("<", cur, it.hi)):
+                    break
+                if k > 64:
+                    raise EngineError(f"loop at line {st.lineno}: symbolic range not bounded by the contract (needs an invariant)")
+                self.assign(st.target, cur, env)
+                try:
+                    self.exec_block(st.body, env)
+                except BreakSig:
+                    return
+                except ContinueSig:
+                    pass
+                k += 1
+            self.exec_block(st.orelse, env)
+            return
         items = self.iterate(it)
         broke = False
         for x in items:
@@ -1415,6 +1503,8 @@ class Interp:
 
     def getitem(self, obj, idx):
         obj = self.unwrap(obj)
+        if isinstance(idx, Opt):
+            idx = self.unwrap(idx)
         if isinstance(obj, Rec):
             if obj.cls.kind == "namedtuple":
                 obj = tuple(obj.f[f[0]] for f in obj.cls.fields)
